@@ -446,7 +446,12 @@ def builtin_call(ex, ev: Eval, node, fname):
 
 
 def _store_back(ex, ev, recv_node, newv):
-    ex.assign(ev.st, recv_node, newv, ev)
+    ex.note_mutation(recv_node, extra_depth=1)  # in-place mutation of the receiver
+    ex._in_store_back = True
+    try:
+        ex.assign(ev.st, recv_node, newv, ev)
+    finally:
+        ex._in_store_back = False
 
 
 def method_call(ex, ev: Eval, node, recv_node, meth):
@@ -515,6 +520,10 @@ def method_call(ex, ev: Eval, node, recv_node, meth):
             if ev.guard:
                 raise Unsupported("effect under short-circuit")
             v = coerce_to(ex.expr_typed(ev, a[0], recv.t.elem), recv.t.elem)
+            ch = ex._chain(recv_node)
+            if ch is not None and ex._chain(a[0]) is not None and isinstance(v.t, (TList, TDict, TSet)):
+                # the container now holds the very object the argument names
+                ex.__dict__.setdefault("_views", []).append((ex._chain(a[0])[0], ch[0], ch[1] + 1))
             _store_back(ex, ev, recv_node, mk_list(recv.t, ln + 1, z3.Store(arr, ln, v.z)))
             return V(NONE, z3.BoolVal(True))
         if meth == "pop" and len(a) == 0:
